@@ -24,6 +24,10 @@ T["C05"] = ("definition contracts (exact rational / 50-digit mpmath) on the risk
             "Every call of entropic_risk_measure, expected_shortfall, value_at_risk, quadratic_cvar (all aliases) and the loss modules' forward made by generated samples "
             "(ties, constants, heavy tails, N=1, magnitudes 1e-6..1e6, explicit dims, targets) is compared column by column with the mathematical definition; "
             "three known findings (quadratic-CVaR bracket, its max_iter failure on near-constant float32 samples, dim=None on multi-dimensional input).", "4 C05")
+T["C04"] = ("metamorphic relation monitor over the real criteria (axioms with derived slack)",
+            "Monotonicity, cash invariance, convexity, ES homogeneity / monotonicity in p, entropic monotonicity in a, and the -max/-min/-mean bounds "
+            "(lowered by 1/(4 lam) for quadratic CVaR) and monotone+convex expected-utility losses are checked between calls of the real modules/functions on "
+            "generated tuples (X, Y, c, lambda, k); slack is the summed accuracy bound of the values involved. Two known findings (quadratic CVaR).", "4 C04")
 NA = {}
 
 def main():
